@@ -253,8 +253,42 @@ func c14EndToEnd(c *caseCtx) {
 	if mp["function"] == "thresholds" {
 		genLevelsGenerated(c, mp, increasing)
 	}
+	invalid := c.rng.Intn(6) == 0
+	if invalid {
+		// out-of-range parameters are rejected - whatever the size of the considered set
+		lp := mp["params"].(M)
+		switch c.rng.Intn(4) {
+		case 0:
+			lp["coefficient"] = []float64{0, 1, -0.25, 1.5}[c.rng.Intn(4)]
+		case 1:
+			lp["minValue"] = []float64{-0.125, 1.125}[c.rng.Intn(2)]
+		case 2:
+			lp["maxValue"] = []float64{-0.125, 1.125}[c.rng.Intn(2)]
+		case 3:
+			if increasing {
+				lp["maxValue"] = 1.5
+			} else {
+				lp["minValue"] = 0.0
+			}
+		}
+		if c.rng.Intn(2) == 0 {
+			g.M["choseToMake"] = g.M["choseToMake"].([]interface{})[:1]
+			g.chose = g.chose[:1]
+			if cc, ok := mp["currentChoice"].(string); ok && cc != g.chose[0] {
+				delete(mp, "currentChoice")
+			}
+		}
+		delete(g.M, "biases")
+	}
 	d := decide(g.body(), true)
 	c.count("evaluations", 1)
+	if invalid {
+		c.count("e2e_invalid_params", 1)
+		if d.OK {
+			c.violate("levels-accepted-invalid", fmt.Sprintf("%s with out-of-range level parameters %v and %d considered alternative(s) is answered with a ranking", method, mp["params"], len(g.chose)), M{"request": g.M})
+		}
+		return
+	}
 	if !d.OK {
 		c.count("rejected", 1)
 		return
@@ -269,6 +303,13 @@ func c14EndToEnd(c *caseCtx) {
 	if want := strOr(mp, "function", ""); lv.Fn != want {
 		c.violate("levels-function", fmt.Sprintf("level function in force is '%s', the request configures '%s'", lv.Fn, want), M{"request": g.M})
 		return
+	}
+	// the declared valuesRange of a criterion of the request is the range in force (it comes first)
+	for _, cs := range g.crits {
+		if cr, ok := s.crit(cs.id); ok && (cr.HasRng != cs.hasRng || (cs.hasRng && (cr.Lo != cs.lo || cr.Hi != cs.hi))) {
+			c.violate("levels-declared-range", fmt.Sprintf("criterion %s declares the range %v [%v,%v]; the range in force when the levels are generated is %v [%v,%v]", cs.id, cs.hasRng, cs.lo, cs.hi, cr.HasRng, cr.Lo, cr.Hi), M{"request": g.M})
+			return
+		}
 	}
 	rs, ok := refSeries(lv.Fn, increasing, lv.MinValue, lv.MaxValue, lv.Coefficient)
 	if !ok {
@@ -349,7 +390,7 @@ func init() {
 			"parameters and data Evaluate received. Non-trivial = series with >=2 levels / a checked reported threshold; distinct = (source, direction, coefficient, min, max, length).",
 		assumptions: []string{"a case whose ratio comes within 1e-12 of the stop bound without being equal to it is fragile (skipped); dyadic parameters hit bounds exactly and are judged"},
 		streams: []*stream{
-			{name: "endToEnd", n: tierN(16000, 300000), unit: 4000, run: c14EndToEnd, floors: map[string]int64{"reported_thresholds_checked": 10000, "e2e_after_bias": 2000},
+			{name: "endToEnd", n: tierN(16000, 300000), unit: 4000, run: c14EndToEnd, floors: map[string]int64{"reported_thresholds_checked": 10000, "e2e_after_bias": 2000, "e2e_invalid_params": 1500},
 				note: "aspect elimination / satisfaction requests with generated levels and 0..2 biases: every reported threshold and level index is checked against the documented series"},
 			{name: "grid", n: tierN(20000, 400000), unit: 2500, run: c14Case, floors: map[string]int64{"series_checked": 10000, "invalid_params": 1000, "clamped_at_bound": 100, "empty_series": 100}},
 		},
